@@ -159,18 +159,32 @@ def dump_chart(c, warnings) -> str:
     return "|".join(parts)
 
 
+_parse_count = 0
+
+
 def parse(text: str, want=None):
-    """Returns (chart or None, exception or None, warnings)."""
+    """Returns (chart or None, exception or None, warnings).
+
+    What is parsed must not depend on how verbosely the application logs: every other parse runs with the `chartparse` logger
+    at DEBUG (records below WARNING are simply not counted), the others at the default level."""
+    global _parse_count
     from chartparse.chart import Chart
 
     install_capture()
     _tls.sink = []
+    _parse_count += 1
+    lg = logging.getLogger("chartparse")
+    old = lg.level
+    if _parse_count % 2 == 0 and threading.current_thread() is threading.main_thread():
+        lg.setLevel(logging.DEBUG)
     try:
         c = Chart.from_file(io.StringIO(text, newline=""), want_tracks=want_arg(want))
         return c, None, _tls.sink
     except Exception as e:  # noqa: BLE001
         return None, e, _tls.sink
     finally:
+        if lg.level != old:
+            lg.setLevel(old)
         sink = _tls.sink
         _tls.sink = None
         _tls.last = sink
@@ -272,7 +286,7 @@ def pollute(seed: int = 0):
     rng = random.Random(f"past-{seed}")
     ins, dif = enums()
     texts = []
-    prof = gen.Profile(max_tracks=3, max_groups=10, max_events=6, max_tempo=4, garbage=0.3, unknown_sections=0.3, meta_fields=0.9,
+    prof = gen.Profile(max_tracks=3, max_groups=10, max_events=6, max_tempo=4, garbage=0.3, unknown_sections=0.3, meta_fields=0.9, dup_fields=0.3,
                        resolutions=(192, 480, 100, 1, 2, 3, 96, 1000, 120))
     for k in range(24):
         src = gen.rand_src(rng, prof)
